@@ -720,7 +720,7 @@ func (in *inst) afterPublish() {
 				}
 			}
 			switch {
-			case deleting > 0:
+			case deleting > 0 && deleting == len(nss.Shards) && len(ps) == 0:
 				cEmptyReaddStates.Add(1)
 				in.violate("published-hole:namespace-readded-while-old-shards-deleting",
 					fmt.Sprintf("namespace %s is in the config and published with assignments {%s} (%s): %d old shard(s) still Deleting, ApplyClusterChanges treats the namespace as existing and creates no new shards", n, cur, pe, deleting))
